@@ -28,7 +28,7 @@
 (*             without len() it drains the iterator into a list:           *)
 (*             len(list(iterator)) + index + (after is not missing)        *)
 (*   before / current / lastch / depth0 / index0   as in the class         *)
-(*   ind       the compiler's iteration_indicator (1 until a body ended)   *)
+(*   ind       the compiler's iteration_indicator (1 until a body started) *)
 (*   pulled / drained  how many source items have been taken from the      *)
 (*             original iterable (only used for conformance statistics)    *)
 (*                                                                         *)
@@ -187,7 +187,8 @@ Advance(k) ==
                /\ SetTop([g EXCEPT !.phase = "stopped"])
           ELSE /\ k = Key(got[1])
                /\ SetTop([g EXCEPT !.index0 = @ + 1, !.before = f.current, !.current = got,
-                                   !.visited = Append(@, got[1]), !.phase = "body"])
+                                   !.visited = Append(@, got[1]), !.phase = "body",
+                                   !.ind = 0])       \* body starts: `iteration_indicator = 0`
     /\ UNCHANGED <<source, filt, kind, done>>
 
 \* One action per result type so that TLC labels every edge with the returned value:
@@ -217,10 +218,11 @@ Recurse ==
     /\ stack' = Append(stack, NewFrame(Children(Top.current[1]), Top.depth0 + 1))
     /\ UNCHANGED <<source, filt, kind, done>>
 
-\* end of the loop body: `iteration_indicator = 0`
+\* end of the loop body (the indicator was already cleared when the body started, so that
+\* leaving the body early cannot make the else branch run)
 EndBody ==
     /\ ~done /\ Top.phase = "body"
-    /\ SetTop([Top EXCEPT !.phase = "head", !.ind = 0])
+    /\ SetTop([Top EXCEPT !.phase = "head"])
     /\ UNCHANGED <<source, filt, kind, done>>
 
 \* after the for statement: `if iteration_indicator: <else branch>`; a recursive call returns
